@@ -10,7 +10,7 @@
               failed), and the Append calls of every cleanupStaleSeries appender,
      c_store  the complete storage contents at the end (every series, every sample).
    Transport: primitive 63-bit integers (Coq 8.16 parses decimal Z literals slowly); sample
-   values are shifted by 2^20, 0 is the staleness marker.
+   values are shifted by 2^23, 0 is the staleness marker.
 
    agree: the model (model/RuleGroup.v, with the instant-query evaluator [query] as query
           function) run on c_ops produces the same events (Append calls of one appender
@@ -31,11 +31,12 @@ Record case := mkCase {
 
 (* ---------------------------------------------------------------- decoding
    Packed transport (see the harness' printer): an Append call / sample is one integer
-   t (28 bits) | value + 2^20 or 0 for the marker (21 bits) | error class (2 bits) | label set
+   t (28 bits) | value + 2^23 or 0 for the marker (24 bits) | error class (2 bits) | label set
    index; a label set is one integer with 9 bits (k*32 + v + 1) per label. *)
 Definition zi (i : int) : Z := Uint63.to_Z i.
-Definition voff : Z := 1048576.
-Definition dec_val (z : Z) : val := if z =? 0 then VStale else VNum (z - voff).
+Definition voff : Z := 1048576.       (* shift of expression constants *)
+Definition soff : Z := 8388608.       (* shift of sample values *)
+Definition dec_val (z : Z) : val := if z =? 0 then VStale else VNum (z - soff).
 (* field extraction on the primitive integer (native shifts), converted to Z afterwards *)
 Definition bits (x : int) (lo n : Z) : Z :=
   zi (Uint63.land (Uint63.lsr x (Uint63.of_Z lo)) (Uint63.sub (Uint63.lsl 1%uint63 (Uint63.of_Z n)) 1%uint63)).
@@ -78,7 +79,7 @@ Definition dec_op (tbl : list lset) (xs : list int) : option op :=
       let gid := bits h 2 2 in
       if tag =? 0 then
         match rest with
-        | [p] => option_map (fun l => OpRaw l (bits p 0 28) (dec_val (bits p 28 21))) (tbl_get tbl (shr p 51))
+        | [p] => option_map (fun l => OpRaw l (bits p 0 28) (dec_val (bits p 28 24))) (tbl_get tbl (shr p 54))
         | _ => None
         end
       else if tag =? 1 then
@@ -105,8 +106,8 @@ Inductive oevent :=
 | OCleanup (gid : Z) (apps : list orec).
 
 Definition dec_recs (tbl : list lset) (xs : list int) : option (list orec) :=
-  all_some (map (fun p => option_map (fun l => (l, bits p 0 28, dec_val (bits p 28 21), bits p 49 2))
-                                     (tbl_get tbl (shr p 51))) xs).
+  all_some (map (fun p => option_map (fun l => (l, bits p 0 28, dec_val (bits p 28 24), bits p 52 2))
+                                     (tbl_get tbl (shr p 54))) xs).
 
 Definition dec_event (tbl : list lset) (xs : list int) : option oevent :=
   match xs with
@@ -125,7 +126,7 @@ Definition dec_event (tbl : list lset) (xs : list int) : option oevent :=
 
 Definition dec_series (tbl : list lset) (xs : list int) : option (lset * list sample) :=
   match xs with
-  | li :: r => option_map (fun l => (l, map (fun p => (bits p 0 28, dec_val (bits p 28 21))) r)) (tbl_get tbl (zi li))
+  | li :: r => option_map (fun l => (l, map (fun p => (bits p 0 28, dec_val (bits p 28 24))) r)) (tbl_get tbl (zi li))
   | [] => None
   end.
 
